@@ -45,7 +45,9 @@ def run_scenario(root, nenf, actions, seed):
         else:
             r = os.path.join(root, 'e%d' % i)
             fs = FsSim(r)
+            fs.symlink_main = (i == 0 and seed % 2 == 1)
             fs.mkdir('policy.d')
+            fs.write('policy.d', 'keep.yaml', {'kept': 'role:kept'}, 'yaml')
             if i != 2:
                 fs.mkdir('second.d')        # policy.d is then NOT the last existing directory
             if i != 1:
@@ -95,6 +97,8 @@ def run_scenario(root, nenf, actions, seed):
                     x['fs'].write_main({}, 'yaml')           # zero bytes
                 else:
                     x['fs'].write_main({'alpha': 'role:mainedit%d_%d' % (idx, x['k']), 'zeta': '@'}, 'yaml')
+            elif (x['k'] - 1) % 4 == 1:
+                x['fs'].delete('policy.d', 'x.yaml')        # the override is gone because its file is (another file stays)
             else:
                 x['fs'].write('policy.d', 'x.yaml', contents[(x['k'] - 1) % 4], 'yaml')
             x['fs'].sync()
